@@ -388,9 +388,14 @@ static void mp_mut(spif_obj_t m, int j)
     case 1: mset(m, "z", "1"); break;
     case 2: K = S_("a"); r = SPIF_MAP_REMOVE(m, K); SPIF_OBJ_DEL(K); if (r) SPIF_OBJ_DEL(r); break;
     case 3: K = S_("q"); r = SPIF_MAP_REMOVE(m, K); SPIF_OBJ_DEL(K); if (r) SPIF_OBJ_DEL(r); break;
-    case 4: l = SPIF_MAP_GET_KEYS(m, (spif_list_t) NULL); if (l) SPIF_LIST_DEL(l); break;
-    case 5: l = SPIF_MAP_GET_VALUES(m, (spif_list_t) NULL); if (l) SPIF_LIST_DEL(l); break;
-    case 6: l = SPIF_MAP_GET_PAIRS(m, (spif_list_t) NULL); if (l) SPIF_LIST_DEL(l); break;
+    case 4: case 5: case 6:          /* into a list the map makes, and into the caller's list of each list class (which holds an element of the caller's already) */
+        for (int lc = -1; lc < 3; lc++) {
+            spif_list_t mine = lc < 0 ? (spif_list_t) NULL : (lc == 0 ? SPIF_LIST_NEW(array) : (lc == 1 ? SPIF_LIST_NEW(linked_list) : SPIF_LIST_NEW(dlinked_list)));
+            if (mine) SPIF_LIST_APPEND(mine, S_("own"));
+            l = j == 4 ? SPIF_MAP_GET_KEYS(m, mine) : (j == 5 ? SPIF_MAP_GET_VALUES(m, mine) : SPIF_MAP_GET_PAIRS(m, mine));
+            if (l) SPIF_LIST_DEL(l); else if (mine) SPIF_LIST_DEL(mine);
+        }
+        break;
     case 7: K = S_("a"); r = SPIF_MAP_GET(m, K); SPIF_OBJ_DEL(K); if (r) spif_str_append_char(SPIF_STR(r), '!'); break;
     case 8: { spif_iterator_t it = SPIF_MAP_ITERATOR(m); int g = 0; while (it && SPIF_ITERATOR_HAS_NEXT(it) && g++ < 64) (void) SPIF_ITERATOR_NEXT(it); if (it) SPIF_ITERATOR_DEL(it); break; }
     case 9: K = S_("a"); r = SPIF_MAP_GET(m, K); if (r) SPIF_MAP_SET(m, K, r); SPIF_OBJ_DEL(K); break;          /* the map copies what it is given, so its own value object is a legal argument */
